@@ -227,6 +227,14 @@ def mutators(S):
         del lst[0]
     reg('beam.models(then-mutate-caller-list)', lambda r, c: _other(r, BMODELS, c[B]['models']), _alias_bmodels_act, setc(B, 'models'))
 
+    # other legal container types for the same assignments
+    reg('plasma.composition(tuple)', lambda r, c: _other(r, COMPS, c[P]['composition']),
+        lambda L, v: setattr(L.plasma, 'composition', tuple(S.species_list(v))), setc(P, 'composition'))
+    reg('plasma.models(generator)', lambda r, c: _other(r, PMODELS, c[P]['models']),
+        lambda L, v: setattr(L.plasma, 'models', (S.plasma_model(m) for m in v)), setc(P, 'models'))
+    reg('beam.models(tuple)', lambda r, c: _other(r, BMODELS, c[B]['models']),
+        lambda L, v: setattr(L.beam, 'models', tuple(S.beam_model(m) for m in v)), setc(B, 'models'))
+
     # rejected changes: the call must raise and leave the scene exactly as it was
     def _rej(fn):
         def act(L, v):
@@ -469,7 +477,7 @@ PARAM_NODE = {
     'beam.atomic_data': ['Beam.atomic_data.set'], 'beam.plasma': ['Beam.plasma.set'], 'beam.plasma(switch)': ['Beam.plasma.set'], 'laser.plasma(switch)': ['Laser.plasma.set'], 'beam.attenuator': ['Beam.attenuator.set'],
     'beam.attenuator.step': ['SingleRayAttenuator.step.set'], 'beam.attenuator.clamp_sigma': ['SingleRayAttenuator.clamp_sigma.set'],
     'beam.models': ['Beam.models.set'], 'beam.models(then-mutate-caller-list)': ['Beam.models.set'],
-    'plasma.models(then-mutate-caller-list)': ['Plasma.models.set'], 'plasma.composition(then-mutate-caller-list)': ['Plasma.composition.set'], 'beam.models.add': ['beam.ModelManager.add'], 'beam.integrator': ['Beam.integrator.set'],
+    'plasma.models(then-mutate-caller-list)': ['Plasma.models.set'], 'plasma.composition(tuple)': ['Plasma.composition.set'], 'plasma.models(generator)': ['Plasma.models.set'], 'beam.models(tuple)': ['Beam.models.set'], 'plasma.composition(then-mutate-caller-list)': ['Plasma.composition.set'], 'beam.models.add': ['beam.ModelManager.add'], 'beam.integrator': ['Beam.integrator.set'],
     'beam.transform': ['scenegraph:Beam'], 'beam.parent': ['scenegraph:Beam'],
     'laser.importance': ['Laser.importance.set'], 'laser.laser_spectrum': ['Laser.laser_spectrum.set'],
     'laser.laser_profile': ['Laser.laser_profile.set'], 'laser.plasma': ['Laser.plasma.set'], 'laser.models': ['Laser.models.set'],
@@ -482,7 +490,7 @@ ACCESSOR_CACHE = {'exc': 'cache:Models(ExcitationLine)', 'rec': 'cache:Models(Re
                   'lrp': 'cache:Models(TotalRadiatedPower)', 'gaunt': 'cache:Models(Bremsstrahlung)', 'bcx': 'cache:Models(BeamCXLine)',
                   'bem': 'cache:Models(BeamEmissionLine)', 'stop': 'cache:Attenuation'}
 # mutators after which some model kinds are no longer attached (so their caches cannot be seen to refill)
-MODEL_SET_CHANGERS = ('plasma.models(then-mutate-caller-list)', 'beam.models(then-mutate-caller-list)', 'plasma.models', 'plasma.models.set', 'plasma.models.add', 'beam.models', 'beam.models.add', 'laser.models')
+MODEL_SET_CHANGERS = ('plasma.models(generator)', 'beam.models(tuple)', 'plasma.models(then-mutate-caller-list)', 'beam.models(then-mutate-caller-list)', 'plasma.models', 'plasma.models.set', 'plasma.models.add', 'beam.models', 'beam.models.add', 'laser.models')
 
 
 def _idents(L):
